@@ -403,10 +403,85 @@ fn sc_sweep(steps: usize) -> impl Fn(&mut Ctx) + Sync {
     }
 }
 
+/// limits placed exactly at, and 1..3 below, what the batch really needs: the arithmetic size model
+/// must agree with real serialization at the byte, or the limit is exceeded
+fn sc_limit_sweep(ns: Vec<usize>) -> impl Fn(&mut Ctx) + Sync {
+    move |ctx: &mut Ctx| {
+        let f = [2usize, 3, 4, 1, 5][ctx.choose_free(5)];
+        let ni = ctx.choose_free(ns.len());
+        let which = ctx.choose_free(2);
+        let d = ctx.choose_free(5) as u32;
+        let long_names = ctx.choose_free(2) == 1;
+        let n = ns[ni];
+        let mut specs: Vec<Spec> = (0..n).map(|j| family_spec(f, j)).collect();
+        if long_names {
+            for (j, s) in specs.iter_mut().enumerate() {
+                for a in s.assets.iter_mut() {
+                    if a.1.len() == 3 {
+                        a.1 = (0..32u8).map(|k| k ^ (j as u8)).collect();
+                        a.2 = if j % 5 == 0 { 100 } else { 1 };
+                    }
+                }
+            }
+        }
+        let tgt = target(0);
+        let mut utxos = TransactionUnspentOutputs::new();
+        for (j, s) in specs.iter().enumerate() {
+            utxos.add(&utxo_of(j, s));
+        }
+        // locate the boundary with generous limits (the library's own answer is only used to find
+        // where to put the limit, never to judge)
+        let mut p = Params::mainnet();
+        p.max_tx_size = 1 << 20;
+        p.max_value_size = 1 << 20;
+        let probe = match guard(|| create_send_all(&tgt, &utxos, &p.config())) {
+            Ok(Ok(l)) if l.len() == 1 && l.get(0).len() == 1 => l.get(0).get(0).to_bytes(),
+            _ => return ctx.hit("sweep-probe-not-a-single-transaction"),
+        };
+        let t = match ledger::parse_tx(&probe) {
+            Ok(t) => t,
+            Err(_) => return,
+        };
+        let mut p2 = Params::mainnet();
+        let name;
+        if which == 0 {
+            let biggest = t.outputs.iter().map(|o| o.value_bytes).max().unwrap_or(0) as u32;
+            if biggest <= d + 20 {
+                return;
+            }
+            p2.max_value_size = biggest - d;
+            p2.max_tx_size = 1 << 20;
+            name = format!("max_value_size = largest real value ({}) - {}", biggest, d);
+            ctx.hit("limit-sweep:value-size");
+        } else {
+            let keys: BTreeSet<Vec<u8>> = specs.iter().filter_map(|s| if let Owner::Key(k, _) = &s.owner { Some(key_hash(*k).to_bytes()) } else { None }).collect();
+            let boots: BTreeMap<Vec<u8>, Vec<u8>> = specs.iter().filter_map(|s| if let Owner::Byron(i) = &s.owner { let a = crate::gen::byron_cached(*i as usize); Some((a.to_bytes(), a.attributes())) } else { None }).collect();
+            let signed = ledger::signed_bytes(&t, keys.len(), &boots.values().cloned().collect::<Vec<_>>()).len() as u32;
+            p2.max_tx_size = signed - d;
+            p2.max_value_size = 1 << 20;
+            name = format!("max_tx_size = real signed size ({}) - {}", signed, d);
+            ctx.hit("limit-sweep:tx-size");
+        }
+        let what = || format!("family {} with {} utxos (long names {}) ; {}", f, n, long_names, name);
+        ctx.set_sample(|| what());
+        ctx.observe(&(f, n, which, d, long_names));
+        let res = guard(|| create_send_all(&tgt, &utxos, &p2.config()));
+        judge(ctx, &specs, &tgt, &p2, res, &what);
+    }
+}
+
 pub fn scenario(name: &str, tier: Tier) -> Option<BoxedScenario> {
     match name {
         "sequences" => Some(Box::new(sc_sequences(if tier.thorough() { 5 } else { 3 }))),
         "sweep" => Some(Box::new(sc_sweep(if tier.thorough() { 3000 } else { 1500 }))),
+        "limit_sweep" => {
+            let mut ns: Vec<usize> = (1..=40).collect();
+            ns.extend([60, 141]);
+            if tier.thorough() {
+                ns.extend([100, 254, 255, 256, 257]);
+            }
+            Some(Box::new(sc_limit_sweep(ns)))
+        }
         "families" => {
             let mut ns = vec![1usize, 2, 3, 4, 22, 23, 24, 25, 26, 60];
             if tier.thorough() {
@@ -421,15 +496,15 @@ pub fn scenario(name: &str, tier: Tier) -> Option<BoxedScenario> {
 pub fn run(tier: Tier, seed: u64) -> i32 {
     let mut rep = Report::new(P, tier, seed);
     let n = if tier.thorough() { 5 } else { 3 };
-    rep.rule = format!("sequences: every sequence of <= {} UTxOs over 14 kinds (pure ADA 0.9 / 1.2 / 50 / 300 / 4000 / 2^40 lovelace-scale, assets whose summed quantity crosses 255|256, 2^32 and near-2^63 quantities, 0 / 1 / 32-byte names, 1..3 policies, asset-rich with little ADA, two Byron owners, one key behind enterprise / base / pointer addresses) x 8 parameter configurations (mainnet; max_tx_size 420; max_value_size 90; zero fee; coins_per_byte 1; 300/60; fee 1000/2000000; coins_per_byte 43100 with max_value_size 150) x 3 target addresses (base, Byron, script enterprise) x 2 hash-container seeds. families: 6 families (one key; distinct keys; distinct names under one policy; distinct policies; one shared asset; Byron/key mix) x n in the listed counts x 8 configurations x 2 seeds. sweep: an asset-carrying UTxO holding 1 ADA (4 kinds) + one pure-ADA UTxO swept from 0.15 ADA in 1000-lovelace steps + 0..2 small pure-ADA UTxOs x 8 configurations. Oracle on the re-parsed transactions: inputs are supplied UTxOs, each spent exactly once over the batch, every output to the target, inputs == outputs + fee in lovelace and every asset, fee >= a*|signed tx| + b with one key witness per distinct payment key and one bootstrap witness per Byron address, |signed tx| <= max_tx_size, |value| <= max_value_size, coin >= coins_per_byte*(160+|output|), no zero quantities.", n);
+    rep.rule = format!("sequences: every sequence of <= {} UTxOs over 14 kinds (pure ADA 0.9 / 1.2 / 50 / 300 / 4000 / 2^40 lovelace-scale, assets whose summed quantity crosses 255|256, 2^32 and near-2^63 quantities, 0 / 1 / 32-byte names, 1..3 policies, asset-rich with little ADA, two Byron owners, one key behind enterprise / base / pointer addresses) x 8 parameter configurations (mainnet; max_tx_size 420; max_value_size 90; zero fee; coins_per_byte 1; 300/60; fee 1000/2000000; coins_per_byte 43100 with max_value_size 150) x 3 target addresses (base, Byron, script enterprise) x 2 hash-container seeds. families: 6 families (one key; distinct keys; distinct names under one policy; distinct policies; one shared asset; Byron/key mix) x n in the listed counts x 8 configurations x 2 seeds. sweep: an asset-carrying UTxO holding 1 ADA (4 kinds) + one pure-ADA UTxO swept from 0.15 ADA in 1000-lovelace steps + 0..2 small pure-ADA UTxOs x 8 configurations. limit_sweep: 5 families x n in 1..40, 60, 141 (thorough also 100, 254..257) x short / 32-byte names x (max_value_size = largest real value size - d | max_tx_size = real signed size - d) for d in 0..4. Oracle on the re-parsed transactions: inputs are supplied UTxOs, each spent exactly once over the batch, every output to the target, inputs == outputs + fee in lovelace and every asset, fee >= a*|signed tx| + b with one key witness per distinct payment key and one bootstrap witness per Byron address, |signed tx| <= max_tx_size, |value| <= max_value_size, coin >= coins_per_byte*(160+|output|), no zero quantities.", n);
     rep.assume("a refusal (Err) is not judged: the property is conditional on success");
     rep.assume("the signed size is computed by the harness (ledger::signed_bytes) from the emitted body plus real-size witnesses, not from the mock witnesses the library attaches");
     rep.trusted_base = vec!["harness/src/ledger.rs (parse_tx, min_fee, signed_bytes)".into(), "notes/ledger_rules.md §1-§3".into()];
-    rep.required_hits = vec!["send-all-succeeds", "send-all-refuses", "txs:1", "txs:>=2", "outputs:>=2", "fee-sufficient", "byron-and-key-owners-in-one-tx", "inputs:>=24", "key-witnesses:>=24", "assets-per-policy:>=24", "policies:>=24", "all-spent-once-checked", "sweep:affordable", "sweep:refused"];
+    rep.required_hits = vec!["send-all-succeeds", "send-all-refuses", "txs:1", "txs:>=2", "outputs:>=2", "fee-sufficient", "byron-and-key-owners-in-one-tx", "inputs:>=24", "key-witnesses:>=24", "assets-per-policy:>=24", "policies:>=24", "all-spent-once-checked", "sweep:affordable", "sweep:refused", "limit-sweep:value-size", "limit-sweep:tx-size"];
     if tier.thorough() {
         rep.required_hits.push("inputs:>=256");
     }
-    for (name, desc) in [("sequences", "full product"), ("families", "full product"), ("sweep", "full product; swept coin in 1000-lovelace steps")] {
+    for (name, desc) in [("sequences", "full product"), ("families", "full product"), ("sweep", "full product; swept coin in 1000-lovelace steps"), ("limit_sweep", "full product; limits at and 1..4 below the real sizes")] {
         let f = scenario(name, tier).unwrap();
         let st = explore(name, &*f, &Opts::new(seed));
         rep.add(name, desc, st);
